@@ -76,6 +76,19 @@ class Outcome:
         self.notes = []
         self.extra = {}
 
+    def absorb(self, other):
+        """add the figures of an earlier pass of the same check (escalation: quick pass first, then the larger one)"""
+        self.evaluations += other.evaluations
+        self.keys |= other.keys
+        self.dist.update(other.dist)
+        self.samples = (other.samples + self.samples)[:6]
+        self.oracle_failures = other.oracle_failures + self.oracle_failures
+        self.disagreements = other.disagreements + self.disagreements
+        self.notes = other.notes + self.notes
+        for k, v in other.extra.items():
+            self.extra.setdefault(k, v)
+        self.exhaustive = self.exhaustive or other.exhaustive
+
     def count(self, key=None, nontrivial=True):
         self.evaluations += 1
         if nontrivial and key is not None:
